@@ -72,10 +72,8 @@ def _wellformed(line):
         return False  # no type character
     if len(f) > 3 and f[3] != "" and not all(c in "0123456789" for c in f[3]):
         return False
-    name = f[0][1:]
-    sel = f[1] if len(f) > 1 and f[1] != "" else name
-    if sel == "":
-        return False  # no selector and no description to default to
+    # an empty description with an empty selector is well-formed: it is how other servers and
+    # generators write a blank spacer line (`i<TAB><TAB>error.host<TAB>1`)
     return True
 
 
